@@ -25,10 +25,14 @@ func (e *Exec) RunFunction(fn *ssa.Function) (err error) {
 		}
 	}()
 	e.Root = fn
+	e.lines = append(e.lines, Prelude)
 	if c := e.contractOf(fn); c != nil && c.Options["exact"] {
 		e.Opt.Exact = true
 	}
-	e.lines = append(e.lines, Prelude)
+	if c := e.contractOf(fn); c != nil && (c.Options["trace"] || c.Options["eval-once"] || c.Options["forward-exits"] || c.Options["forward-body-exits"] || len(c.AtEvals) > 0) {
+		InstallTrace(e, &TraceHook{EvalOnce: c.Options["eval-once"], ForwardExits: c.Options["forward-exits"], ForwardBodyExits: c.Options["forward-body-exits"], ConsumesReturn: c.Options["consumes-return"], AtEvals: c.AtEvals})
+		e.ghostOn = true
+	}
 	st := &State{pc: True, heap: map[string]*Term{}}
 	a0 := e.fresh(SInt, "alloc0")
 	e.emit("(assert (< 0 %s))", a0.S)
@@ -61,6 +65,20 @@ func (e *Exec) RunFunction(fn *ssa.Function) (err error) {
 		e.assumeRequires(fr, st, c)
 	}
 	e.execFunc(fr, st)
+	for _, h := range e.hooks {
+		if th, ok := h.(*TraceHook); ok {
+			if un := th.unusedAtEvals(); len(un) > 0 {
+				return fmt.Errorf("out of subset: at-eval clause applies at no program point: %v", un)
+			}
+		}
+	}
+	if c := e.contractOf(fn); c != nil {
+		for key := range c.Loops {
+			if !e.usedLoopKeys[key] {
+				return fmt.Errorf("out of subset: contract loop key %q matches no loop of %s", key, FuncName(fn))
+			}
+		}
+	}
 	return nil
 }
 
@@ -102,6 +120,9 @@ func (e *Exec) execFunc(fr *Frame, in *State) (*State, Value) {
 	incoming := map[*ssa.BasicBlock][]edge{}
 	var rets []retInfo
 	c := e.contractOf(fn)
+	if c == nil && fr.parent != nil && fn.Parent() == e.Root && strings.HasSuffix(fr.path, "defer>") {
+		c = e.contractOf(e.Root) // loop invariants of a deferred closure are written in the enclosing function's contract
+	}
 	for _, b := range order {
 		var st *State
 		isHeader := false
@@ -391,6 +412,29 @@ func (e *Exec) loopHeader(fr *Frame, h *ssa.BasicBlock, st *State, fwd []edge, b
 	for _, key := range lkeys {
 		e.havocLocal(st, key)
 	}
+	if e.ghostOn {
+		hasCall := false
+		for _, b := range sortedBlocks(body) {
+			for _, in := range b.Instrs {
+				switch in.(type) {
+				case *ssa.Call, *ssa.Defer:
+					hasCall = true
+				}
+			}
+		}
+		if hasCall {
+			var gks []string
+			for k := range st.heap {
+				if strings.HasPrefix(k, "L$") {
+					gks = append(gks, k)
+				}
+			}
+			sort.Strings(gks)
+			for _, k := range gks {
+				st.heap[k] = e.fresh(st.heap[k].Sort, "g")
+			}
+		}
+	}
 	hv := map[*ssa.Phi]Value{}
 	for _, phi := range phis {
 		v := e.havocValue(phi.Type(), True, "phi_"+phi.Comment)
@@ -455,6 +499,16 @@ func (e *Exec) backEdge(fr *Frame, from, h *ssa.BasicBlock, st *State) {
 }
 
 // loopKey: structural key of a loop = rendering of the header's condition.
+// loopKeyNamed: the same key rendered with source variable names (for matching contract text).
+func loopKeyNamed(h *ssa.BasicBlock) string {
+	for _, in := range h.Instrs {
+		if iff, ok := in.(*ssa.If); ok {
+			return "loop(" + RenderNamed(iff.Cond) + ")"
+		}
+	}
+	return "loop(" + h.Comment + ")"
+}
+
 func loopKey(h *ssa.BasicBlock) string {
 	for _, in := range h.Instrs {
 		if iff, ok := in.(*ssa.If); ok {
@@ -536,6 +590,34 @@ func (e *Exec) loopInvariants(fr *Frame, h *ssa.BasicBlock, phis []*ssa.Phi, ini
 					return Le(e.invTerm(fr, st, other2), Add(v[phi].(*Term), IntLit(off2)))
 				})
 			}
+		}
+	}
+	// ghost trace candidates (family T)
+	if e.ghostOn {
+		add("$no-exit", true, func(v map[*ssa.Phi]Value, st *State) *Term { return Not(st.heap[gExit]) })
+		add("$no-xexit", true, func(v map[*ssa.Phi]Value, st *State) *Term { return Not(st.heap[gXexit]) })
+		add("$exit==pre", true, func(v map[*ssa.Phi]Value, st *State) *Term { return Eq(pre.heap[gExit], st.heap[gExit]) })
+		add("$n>=pre", true, func(v map[*ssa.Phi]Value, st *State) *Term { return Le(pre.heap[gN], st.heap[gN]) })
+		add("$trace-prefix", true, func(v map[*ssa.Phi]Value, st *State) *Term {
+			var cs []*Term
+			for _, k := range []string{gEk, gEarr, gEslot, gEidx, gEobj, gEscope, gEres} {
+				cs = append(cs, &Term{fmt.Sprintf("(forall ((k!p Int)) (! (=> (< k!p %s) (= (select %s k!p) (select %s k!p))) :pattern ((select %s k!p))))",
+					pre.heap[gN].S, st.heap[k].S, pre.heap[k].S, st.heap[k].S), SBool})
+			}
+			return And(cs...)
+		})
+		add("$held==pre", true, func(v map[*ssa.Phi]Value, st *State) *Term { return Eq(pre.heap[gHeld], st.heap[gHeld]) })
+		for pi, phi := range phis {
+			phi := phi
+			if _, ok := intInfoOf(phi.Type()); !ok {
+				continue
+			}
+			pname := phi.Comment
+			if pname == "" {
+				pname = fmt.Sprintf("phi%d", pi)
+			}
+			add("$last<"+pname, true, func(v map[*ssa.Phi]Value, st *State) *Term { return Lt(st.heap[gLast], v[phi].(*Term)) })
+			add("$last<="+pname, true, func(v map[*ssa.Phi]Value, st *State) *Term { return Le(st.heap[gLast], v[phi].(*Term)) })
 		}
 	}
 	// ownership candidates (family M): a slice / list object carried around the
